@@ -6,7 +6,7 @@ import C15, C16, C13, C10, C12, C05, C07, C20, C18
 
 def jobs(tier):
     J = []
-    for sc in range(1, 17):
+    for sc in range(1, 19):
         J.append(V.Job("add_scenario.%02d" % sc, "vnacal/c03_add.c", "h_add_scenario", C20.BASE,
                        defines=C20.CUT + ["-DSCENARIO=%d" % sc], unwind=14, union_struct=True, kind="bounded",
                        canary=(sc in (1, 3)),
